@@ -134,6 +134,5 @@ pub fn vp_slice_position<F: FnMut(&u8) -> bool>(s: &[u8], pred: F) -> (r: Option
             && forall|j: int| 0 <= j < i ==> pred.ensures((&#[trigger] s@[j],), false),
         r is None ==> forall|j: int| 0 <= j < s@.len() ==> pred.ensures((&#[trigger] s@[j],), false),
 { s.iter().position(pred) }
-pub enum InvalidResponseKind { ChunkSize, Chunk }
 pub const MAXB: usize = 64 * 1024;
 
